@@ -1,5 +1,7 @@
 import Proofs.Hyperslab
 import Proofs.MiniPy
+import Proofs.Quote
 import Proofs.Slice
 import Proofs.SliceSrc
 import Proofs.SliceTuple
+import Proofs.Tree
